@@ -15,7 +15,7 @@ RULE = (
     'event was enqueued on have finished. Non-trivial = some event was forwarded to a bus whose handler had not finished '
     'when the handlers of the first bus had; distinct by canonical JSON.'
 )
-ASSUMPTIONS = ['virtual time', 'no re-dispatch by user code; a quarter of the scenarios carry event timeouts (a parent timing out later must not touch an already completed child)']
+ASSUMPTIONS = ['virtual time', 'no re-dispatch by user code; a quarter of the scenarios carry event timeouts (a parent timing out later must not touch an already completed child); some handlers need time to unwind when cancelled']
 
 from hypothesis import strategies as _st
 
@@ -28,7 +28,7 @@ def _timeouts(draw):
     return {str(t): draw(_st.sampled_from([0.13, 0.27, 0.41, 0.77])) for t in range(4) if draw(_st.booleans())}
 
 
-P = Profile(timeouts=_timeouts(), min_buses=2, max_buses=3, fwd=1.0, typed_fwd=True, watch=True, actor_ops=['disp', 'disp', 'dispany', 'disp2', 'sleep', 'await', 'await', 'status', 'yield', 'acc'], acc_names=['event_result', 'event_results_list', 'event_results_by_handler_name', 'event_results_by_handler_id', 'event_results_flat_list', 'event_results_flat_dict'], rets=['idx', 'list', 'list', 'dict', 'dict', 'none', 'str'], maxdepth=[1, 2], wild=0.4, par=0.15, raises=0.1, durs=[0.01, 0.05, 0.1, 0.11, 0.25, 0.5])
+P = Profile(cleanup=0.3, cleanup_durs=[0.05, 0.25, 0.5], timeouts=_timeouts(), min_buses=2, max_buses=3, fwd=1.0, typed_fwd=True, watch=True, actor_ops=['disp', 'disp', 'dispany', 'disp2', 'sleep', 'await', 'await', 'status', 'yield', 'acc'], acc_names=['event_result', 'event_results_list', 'event_results_by_handler_name', 'event_results_by_handler_id', 'event_results_flat_list', 'event_results_flat_dict'], rets=['idx', 'list', 'list', 'dict', 'dict', 'none', 'str'], maxdepth=[1, 2], wild=0.4, par=0.15, raises=0.1, durs=[0.01, 0.05, 0.1, 0.11, 0.25, 0.5])
 
 
 def budget(tier):
